@@ -37,8 +37,13 @@ CONSTANTS Workers, Configs, MirrorGoc, MirrorSetup, MirrorDone,
 
 (* A configuration (frozen in `cf` by Init) is a record                    *)
 (*   nw      number of participating workers (1..nw)                       *)
-(*   groups  sequence: group of worker w                                   *)
-(*   n       requested number of trials (num_examples)                     *)
+(*   named   TRUE: all workers pass the same name (one shared study);      *)
+(*           FALSE: name=None, every worker gets a private study           *)
+(*   groups  sequence: the group *declared* by worker w (an integer code   *)
+(*           per distinct group id; workers that pass group=None get a     *)
+(*           code of their own: the per-thread default)                    *)
+(*   n       requested number of trials (num_examples; 0 is legal; None =  *)
+(*           unbounded is represented by a number no run reaches)          *)
 (*   ops     set of user steps a worker may choose for a trial:            *)
 (*           "done" (add_measurement, done), "skip" (skip),                *)
 (*           "early" (add_measurement, should_stop_early, skip),           *)
@@ -121,10 +126,12 @@ RelReg(w) ==
 \* ---- get-or-create of the named study -----------------------------------------
 GocTest(w) ==
   /\ pc[w] = "goc_test"
-  /\ IF registry = NULL
-     THEN Goto(w, "goc_store") /\ UNCHANGED myStudy
-     ELSE myStudy' = [myStudy EXCEPT ![w] = registry] /\ Goto(w, AfterGoc)
-  /\ UNCHANGED <<cf, op, cur, seen, newId, bseen, did, registry, studies, regLock, algReady, algDone, algLock,
+  /\ IF ~cf.named           \* name=None: a private study that is never registered
+     THEN /\ myStudy' = [myStudy EXCEPT ![w] = w] /\ studies' = studies \cup {w} /\ Goto(w, AfterGoc)
+     ELSE IF registry = NULL
+     THEN Goto(w, "goc_store") /\ UNCHANGED <<myStudy, studies>>
+     ELSE myStudy' = [myStudy EXCEPT ![w] = registry] /\ Goto(w, AfterGoc) /\ UNCHANGED studies
+  /\ UNCHANGED <<cf, op, cur, seen, newId, bseen, did, registry, regLock, algReady, algDone, algLock,
                  nProp, nFb, gProp, gFb, pop, svars, delivered>>
 GocStore(w) ==
   /\ pc[w] = "goc_store"
@@ -357,7 +364,7 @@ FairSpec == Spec /\ \A w \in Workers : WF_vars(Step(w))
 -----------------------------------------------------------------------------
 \* Invariants (every reachable state)
 Pos(s) == 1..Len(trials[s])
-OneStudyPerName == Cardinality(studies) <= 1
+OneStudyPerName == cf.named => Cardinality(studies) <= 1
 IdsUnique == \A s \in studies : \A i, j \in Pos(s) : i # j => trials[s][i].id # trials[s][j].id
 IdsDense  == \A s \in studies : \A i \in Pos(s) : trials[s][i].id = i
 AtMostN   == \A s \in studies : Len(trials[s]) <= cf.n
@@ -408,10 +415,12 @@ BestIsMax == \A s \in studies :
   THEN /\ best[s] \in Pos(s) /\ Feasible(trials[s][best[s]])
        /\ \A i \in Pos(s) : Feasible(trials[s][i]) => RewardOf(trials[s][i].id) <= RewardOf(trials[s][best[s]].id)
   ELSE best[s] = 0
+TotalTrials[Q \in SUBSET Workers] ==
+  IF Q = {} THEN 0 ELSE LET x == CHOOSE y \in Q : TRUE IN Len(trials[x]) + TotalTrials[Q \ {x}]
 FeedbackExactlyOnce ==
   /\ \A s \in studies : \A i \in Pos(s) : trials[s][i].fed = IF Feasible(trials[s][i]) THEN 1 ELSE 0
   /\ nFb = gFb /\ nProp = gProp
-  /\ \A s \in studies : studies = {s} => nProp = Len(trials[s])
+  /\ gProp = TotalTrials[studies]
 ExactlyN == \A s \in studies : active[s] => Len(trials[s]) = cf.n
 AtQuiescence == Quiescent => AllCompleted /\ CountsAddUp /\ BestIsMax /\ FeedbackExactlyOnce /\ ExactlyN
 
